@@ -89,6 +89,18 @@ CHECKS["C04"] = (
     "DESIGN.md §3 C04",
 )
 
+CHECKS["C03"] = (
+    "exploration",
+    "state-invariant monitor: independent reference type checker applied to every stored managed attribute of every live instance after every operation, plus single-fault oracle (one non-conforming slot, conforming twin confirmed on a replayed state)",
+    "Generated spec classes are driven through histories that use every mutation route with conforming and non-conforming values "
+    "aimed at each slot (value, element, dict key, dict value, nested attribute, container family); after every operation every "
+    "managed attribute stored in every live instance (recursively through nested spec instances, containers and keyed containers) is "
+    "checked by vlib/refcheck.py against the harness's own type terms. Operations whose conforming twin succeeds are re-issued with "
+    "exactly one slot made non-conforming and must raise TypeError/ValueError or leave a conforming state.",
+    "Trusted: reference checker and type terms in vlib/classgen.py. Direct mutation of contained containers is out of scope.",
+    "DESIGN.md §3 C03",
+)
+
 NOT_YET = {}
 
 
